@@ -34,7 +34,8 @@ CONSTANTS B, Size, KeyLen, NSet, MaxBytes,
           MaxSize,          \* largest digest size (64 / 32; scaled)
           RangeCheck,       \* UnmarshalBinary rejects size \notin 1..MaxSize and offset > B
           CorruptSizes,     \* values an attacker-chosen size byte takes (empty: no corruption)
-          CorruptOffsets    \* values an attacker-chosen offset byte takes
+          CorruptOffsets,   \* values an attacker-chosen offset byte takes
+          WithMarshal       \* FALSE switches MarshalBinary/UnmarshalBinary off (smaller instances for the Write/Sum/Reset rules)
 
 VARIABLES h,          \* [size, klen, calls]: parameter block h was initialised with, F calls since
           c,          \* d.c as one integer (bytes compressed)
@@ -167,7 +168,8 @@ UnmarshalCorrupt(sz, off) ==
           /\ last' = A!Ev("corrupt", 0, TRUE, A!NoOut)
 
 Next == \/ \E n \in NSet : Write(n)
-        \/ Sum \/ Reset \/ Marshal \/ Unmarshal
+        \/ Sum \/ Reset
+        \/ (WithMarshal /\ (Marshal \/ Unmarshal))
         \/ \E sz \in CorruptSizes, off \in CorruptOffsets : UnmarshalCorrupt(sz, off)
 Spec == Init /\ [][Next]_ivars
 
